@@ -142,7 +142,7 @@ def run_scenario(ctx, events, tids, counter, scn, files, roles):
                 raise
             err = repr(e)
     elif via == "cli":
-        a = ["image", "boot", "--storage-output-directory", outdir, "--storage-address", hex(base)]
+        a = ["image", "boot", "--storage-output-directory", outdir, "--storage-address", core.num(base)]
         for f in files:
             a += ["--input-file", f]
         if cfg:
@@ -155,7 +155,7 @@ def run_scenario(ctx, events, tids, counter, scn, files, roles):
         dummy = d / "dummy.config"
         dummy.write_text("CONFIG_VERIF=y\n")
         a = [core.PY, str(core.REPO / "ncs" / "build.py"), "storage", "--core", f"verif,,,{dummy}", "--zephyr-base", str(d),
-             "--storage-output-directory", str(outdir), "--storage-address", hex(base), "--soc", soc]
+             "--storage-output-directory", str(outdir), "--storage-address", core.num(base), "--soc", soc]
         for f in files:
             a += ["--input-envelope", str(f)]
         if cfg:
